@@ -507,12 +507,20 @@ func (w *poolWorld) Do(op string) {
 	case "state":
 		var id int
 		fmt.Sscanf(args[0], "%d", &id)
+		if id != w.unknown.id && id >= len(w.cc.scs) {
+			w.setupImpossible(op, "the connection it refers to was never created")
+			return
+		}
 		w.doState(id, stateNames[args[1]], pubsBefore)
 	case "pick":
 		w.doPick(args)
 	case "done":
 		var i int
 		fmt.Sscanf(args[0], "%d", &i)
+		if i >= len(w.calls) || !w.calls[i].returned || w.calls[i].sc == nil {
+			w.setupImpossible(op, "the call it completes was not placed")
+			return
+		}
 		w.doDone(i, args[1])
 	case "adv":
 		var n int
@@ -543,6 +551,20 @@ func (w *poolWorld) Do(op string) {
 	w.afterOp(name, pubsBefore)
 }
 
+// setupImpossible: an operation of the scenario's setup prefix (or of a
+// replayed history) cannot be executed because an earlier operation did not
+// have the effect every property-conforming implementation has (e.g. the first
+// resolver update created no connection). Reported against the property under
+// check; the state is not expanded.
+func (w *poolWorld) setupImpossible(op, why string) {
+	if !w.inSetup {
+		panic(vsched.CheckError{Msg: "operation " + op + " is not executable: " + why})
+	}
+	name, _ := opParts(op)
+	w.violate(w.cfg.Prop, w.cfg.Prop+".SETUP", "scenario setup not executable at "+name, fmt.Sprintf("setup %v stops at %s: %s; pool: %s; channel calls: %v", w.cfg.Setup, op, why, w.refString(), w.cc.events))
+	w.poisoned = true
+}
+
 // ---- resolver ----
 
 func (w *poolWorld) doResolve(list string) {
@@ -567,6 +589,7 @@ func (w *poolWorld) doResolve(list string) {
 		return
 	}
 	w.addrs = list
+	w.checkCreationAddrs()
 	if first || !w.resolved {
 		w.resolved = true
 		if !w.cc.failFactory {
@@ -639,7 +662,7 @@ func (w *poolWorld) absorbCreations(kind string) int {
 
 func (w *poolWorld) checkCreationAddrs() {
 	for _, e := range w.cc.events {
-		if e.Kind == "NewSubConn" && w.addrs != "" && e.Arg != w.addrs {
+		if (e.Kind == "NewSubConn" || e.Kind == "NewSubConn-failed") && w.addrs != "" && e.Arg != w.addrs {
 			w.violate("C20", "C20.N2", "connection created with stale addresses", fmt.Sprintf("%v created with %q, latest resolved list is %q", e.SC, e.Arg, w.addrs))
 		}
 	}
@@ -1072,6 +1095,9 @@ func (w *poolWorld) judgeKeyed(c *call, desc string, latest bool) {
 		}
 		if latest && (c.err != nil || c.slot != home) {
 			w.violate("C01", "C01.R2", "latest picker does not place a bound key on its READY channel"+w.swapTag(home), fmt.Sprintf("%s; key bound to %v which is READY", desc, home))
+			if w.cfg.Fallback {
+				w.violate("C08", "C08.F3", "call for a bound key not placed on its READY home channel", fmt.Sprintf("%s; key bound to %v which is READY", desc, home))
+			}
 		}
 		if w.cfg.Fallback {
 			w.nontriv["C08home"] = true
